@@ -108,18 +108,27 @@ def eval_case(case, rec, count=True):
         for e in ev:
             if e['kind'].startswith('VIOLATION'):
                 raise Violation(e['kind'].replace('VIOLATION-', ''), dict(info, event=e))
-        # file completeness timeline
+        # completeness timeline of THE ENTRY (the final path of the key); writes to other names (temporary files that
+        # are renamed into place) do not make the entry incomplete
+        final_path = str(cache.filepath(key))
         state = 'complete' if case['populated'] else 'absent'
         timeline = [(0, state, 'initial' if case['populated'] else None)]
         writer_tag = {}
+        wrote_tag_at = {}
         last_complete = 'initial' if case['populated'] else None
         for e in ev:
             if e['kind'] == 'compute-exit':
                 writer_tag[e['caller']] = e['tag']
-            if e['kind'] == 'file-truncated':
+            if e['kind'] == 'file-truncated' and e.get('path') == final_path:
                 timeline.append((e['t'], 'incomplete', None))
             if e['kind'] == 'file-write-closed':
-                last_complete = writer_tag.get(e['caller'])
+                if e.get('path') == final_path:
+                    last_complete = writer_tag.get(e['caller'])
+                    timeline.append((e['t'], 'complete', last_complete))
+                else:
+                    wrote_tag_at[e.get('path')] = writer_tag.get(e['caller'])
+            if e['kind'] == 'entry-replaced' and e.get('path') == final_path:
+                last_complete = wrote_tag_at.get(e.get('src'), writer_tag.get(e['caller']))
                 timeline.append((e['t'], 'complete', last_complete))
 
         def states_during(t0, t1):
@@ -142,6 +151,7 @@ def eval_case(case, rec, count=True):
                 spans[e['caller']][1] = e['t']
         overlap = False
         wrote = {e['caller'] for e in ev if e['kind'] == 'file-write-closed'}
+        others_truncated_final = [e for e in ev if e['kind'] == 'file-truncated' and e.get('path') == final_path]
         for c in callers:
             op = case['ops'][c.idx]
             if c.error is not None:
@@ -161,9 +171,18 @@ def eval_case(case, rec, count=True):
                                                                                    got=repr(r)[:200]))
             if op == 'goc' and states_during(t0, t1) == {'complete'} and computes.get(c.idx):
                 # complete entry during the whole call and nobody wrote meanwhile: must not recompute
-                others_wrote = any(e['kind'] == 'file-truncated' and t0 <= e['t'] <= t1 for e in ev)
+                others_wrote = any(e['kind'] in ('file-truncated', 'entry-replaced') and t0 <= e['t'] <= t1 for e in ev)
                 if not others_wrote:
                     raise Violation('recomputed-although-complete-entry', dict(info, caller=c.idx))
+            if op == 'goc' and computes.get(c.idx):
+                # a call that starts after another (computing) call for the key has returned does not recompute
+                earlier_done = [o for o in callers if o.idx != c.idx and spans[o.idx][1] < t0 and (
+                    computes.get(o.idx) or case['ops'][o.idx] != 'get')]
+                forced_overlap = any(case['ops'][o.idx] == 'force' and spans[o.idx][0] < t1 and spans[o.idx][1] > t0
+                                     for o in callers if o.idx != c.idx)
+                if earlier_done and not forced_overlap and any(
+                        o.result is not tc.NO_VALUE for o in earlier_done):
+                    raise Violation('recomputed-after-another-call-returned', dict(info, caller=c.idx))
             if op == 'force' and len(computes.get(c.idx, [])) != 1:
                 raise Violation('force-did-not-compute-once', dict(info, caller=c.idx, computes=computes.get(c.idx)))
         for a, b in itertools.combinations(spans, 2):
